@@ -223,6 +223,22 @@ func (r *replayBuilder) plan(T types.Type, t Term, depth int) func() string {
 						n = int64(u)
 					}
 				}
+				// unconstrained elements of sized integer types come back as
+				// arbitrary mathematical integers: reduce into the type's range
+				switch u.Kind() {
+				case types.Uint8:
+					n = int64(uint8(n))
+				case types.Int8:
+					n = int64(int8(n))
+				case types.Uint16:
+					n = int64(uint16(n))
+				case types.Int16:
+					n = int64(int16(n))
+				case types.Uint32:
+					n = int64(uint32(n))
+				case types.Int32:
+					n = int64(int32(n))
+				}
 				return fmt.Sprintf("%s(%d)", r.typeStr(T), n)
 			}
 		}
@@ -560,6 +576,12 @@ func tryModelReplay(L *Loaded, id string, g *Group, o *Oblig) *ReplayResult {
 		res.Summary = "reproduced on the real code: " + firstLineContaining(out, "panic:")
 	case err != nil && !strings.Contains(out, "REPLAY-"):
 		res.Summary = "replay test did not build or run: " + firstLine(out)
+	case strings.Contains(out, "REPLAY-PRE-FALSE"):
+		res.Summary = "the inputs built from the model do not satisfy the function's precondition when evaluated on the real code (the model relies on an abstraction): nothing concluded by replay"
+	case strings.Contains(out, "REPLAY-POST-TRUE"):
+		res.Summary = "the clause holds for the real function on the model's inputs (the model relies on an abstraction of a callee or library): not reproduced by replay"
+	case strings.Contains(out, "REPLAY-CHECK-PANIC"):
+		res.Summary = "evaluating the clause on the real result panicked: " + firstLineContaining(out, "REPLAY-CHECK-PANIC")
 	default:
 		res.Summary = "model inputs did not reproduce the failure on the real code (" + strings.Join(rb.notes, "; ") + ")"
 	}
